@@ -18,7 +18,12 @@
                         present in the cross-section) - what the driver runs on large dyadic / float inputs;
      hv_nd ref S        hv_slice with the dominated points removed at every level (C11's nds) - the fastest evaluator.
    All four are proved equal (Property.v); points outside the box (some coordinate > ref) contribute only through the
-   part inside the box, points on the boundary (some coordinate = ref) contribute nothing. *)
+   part inside the box, points on the boundary (some coordinate = ref) contribute nothing.
+
+   Relation to the tree: the model is the SPECIFICATION the code has to meet, for any number of objectives.  The pinned
+   tree (/repo 3919200) meets it for <= 4 objectives; for >= 5 objectives it does not (findings F26, F27: stale area
+   initialisation, inconsistent order of tied nodes - fixes/F26_*.patch, fixes/F27_*.patch; witnesses
+   C12_witness_F26 / C12_witness_F27 in Property.v).  With the three patches applied the check passes unchanged. *)
 From Coq Require Import List ZArith Bool Arith.
 Import ListNotations.
 Require Import DH.Common.VecOrd DH.C11_Pareto.Model.
